@@ -52,7 +52,7 @@ static void check_step(int mode, const a_pid &b, const a_pid &a, double set, dou
 {
     // ulps == 0: all quantities are dyadic and the arithmetic is exact, results are compared with ==; otherwise the gains are
     // weighted means (fuzzy scheduling) and results may differ by the association order of the sums
-    auto near = [&](double x, double y, double mag) { return ulps == 0 ? x == y : std::fabs(x - y) <= ulps * 2.220446049250313e-16 * (mag + 1e-300); };
+    auto near = [&](double x, double y, double mag) { return ulps == 0 ? x == y : std::fabs(x - y) <= ulps * (double)A_REAL_EPSILON * (mag + 1e-300); };
     double err = set - fdb, var = b.fdb - fdb;
     const double f[5] = {a.sum, a.out, a.var, a.fdb, a.err};
     for (double v : f) { if (!std::isfinite(v)) { ck.fail("not-finite", "a state variable became non-finite"); return; } }
@@ -409,6 +409,9 @@ static const a_real m5k[] = {-2, -2, -1, 0, 0, -2, -1, -1, 0, 1, -1, -1, 0, 1, 1
 // three wide overlapping triangles: up to 3 sets active at once
 static const a_real w3e[] = {TRI, -4, -1, 2, TRI, -3, 0, 3, TRI, -2, 1, 4};
 static const a_real w3k[] = {-1, 0, 1, 0, 1, 2, 1, 2, 3};
+// a table that is not sorted by position (left shoulder, right shoulder, middle): the active sets need not be neighbours in table order
+static const a_real u3e[] = {TRI, -1, -1, 0, TRI, 0, 1, 1, TRI, -1, 0, 1};
+static const a_real u3k[] = {-2, 3, 0, 1, -1, 2, 4, 0, -3};
 // the 7 x 7 base of test/pid_fuzzy.h (dyadic scaling)
 #define NL -3
 #define NM -2
@@ -428,12 +431,13 @@ struct Base
     const a_real *me, *mec, *kp, *ki, *kd;
     double base_ki; // the base integral gain keeps ki >= 0 for every consequent
 };
-static const Base BASES[5] = {
+static const Base BASES[6] = {
     {"3x3 shoulder triangles", 3, 2, m3e, m3ec, m3kp, m3ki, m3kd, 0.5},
     {"5x5 trapezoid shoulders", 5, 2, m5e, m5e, m5k, m5k, m5k, 2},
     {"3x3 wide triangles (3 active)", 3, 3, w3e, w3e, w3k, w3k, w3k, 1},
     {"7x7 of test/pid_fuzzy.h", 7, 2, m7e, m7e, m7kp, m7ki, m7kd, 3},
     {"3x3 shoulder triangles without a kp table", 3, 2, m3e, m3ec, nullptr, m3ki, m3kd, 0.5}, // a table may be absent: that gain keeps its base value
+    {"3x3 unsorted table (left, right, middle)", 3, 2, u3e, u3e, u3k, u3k, u3k, 3},
 };
 static const unsigned OPRS[7] = {A_PID_FUZZY_EQU, A_PID_FUZZY_CAP, A_PID_FUZZY_CAP_ALGEBRA, A_PID_FUZZY_CAP_BOUNDED, A_PID_FUZZY_CUP, A_PID_FUZZY_CUP_ALGEBRA, A_PID_FUZZY_CUP_BOUNDED};
 static const char *OPRN[7] = {"equ", "cap", "cap_algebra", "cap_bounded", "cup", "cup_algebra", "cup_bounded"};
@@ -523,7 +527,7 @@ struct FuzzyH
             return;
         }
         // scheduled gains: base + weighted mean of consequents, hence within [base+min, base+max]
-        double lo, hi, tol = 1e-12;
+        double lo, hi, tol = 4096 * (double)A_REAL_EPSILON;
         range(B->kp, B->n, lo, hi);
         if (!(c.pid.kp >= P.kp + lo - tol && c.pid.kp <= P.kp + hi + tol)) { ck.fail("gain-range", "scheduled kp " + num(c.pid.kp) + " outside base + [min,max] of the consequents"); return; }
         range(B->ki, B->n, lo, hi);
@@ -540,7 +544,7 @@ struct FuzzyH
             static const char *gn[3] = {"kp", "ki", "kd"};
             for (int t = 0; t < 3; ++t)
             {
-                if (!(std::fabs(got[t] - want[t]) <= 64 * 2.220446049250313e-16 * (std::fabs(want[t]) + 8)))
+                if (!(std::fabs(got[t] - want[t]) <= 64 * (double)A_REAL_EPSILON * (std::fabs(want[t]) + 8)))
                 {
                     ck.fail(G.any ? "gain-schedule" : "gain-schedule-no-rule", std::string("scheduled ") + gn[t] + " = " + num(got[t]) + " but base + weighted mean of the active consequents = " + num(want[t]) + " (e=" + num((double)e) + ", ec=" + num((double)ec) + ", " + std::to_string(G.ne) + "x" + std::to_string(G.nec) + " sets active)");
                     return;
